@@ -71,6 +71,22 @@ def strand(ctx: Ctx):
     v, cnf, snf, _ = equal(main_leaf(e), "sqrt(self._scale_variance / self._total_weighted_count)")
     ctx.ob("strand-formulas", f"{SM}::_ScaledCounts.scale_stderr", cnf, snf, v, "std-err = sqrt(variance / weighted count of numeric-valued respondents)")
     _none_guards(ctx, ci, "scale_stderr", e)
+    # sibling cross-check: all four statistics are None for a strand WITHOUT numeric-valued respondents (not only for one
+    # without numeric values): each must have a None path whose guard depends on the counts of the valued rows - directly
+    # (`total weighted count == 0`, emptiness of the expanded values) or through the mean / variance being None
+    sib = {}
+    for stat in ("scale_mean", "scale_median", "scale_stddev", "scale_stderr"):
+        full = expand(ctx.repo, ci, stat, stop=lambda m: m.name in ("_weighted_counts", "_numeric_values", "_has_numeric_value"))
+        dep = False
+        for gs, leaf in strip_ifexp_paths(full):
+            if u(leaf) == "None" and any("self._weighted_counts" in u(g) for g, _p in gs):
+                dep = True
+        sib[stat] = dep
+    for stat, dep in sib.items():
+        others = [o for o, d in sib.items() if d and o != stat]
+        ctx.ob("strand-none.siblings", f"{SM}::_ScaledCounts.{stat}", "None when the valued rows hold no respondent" if dep else "no None path depends on the counts of the valued rows",
+               "None when the valued rows hold no respondent (as for " + ", ".join(others or ["the other statistics"]) + ")", True if dep else (False if len(others) >= 2 else None),
+               "a strand whose respondents all sit in categories without a numeric value has no scale statistic: None, not NaN")
     e = expand(ctx.repo, ci, "_weighted_counts", stop=lambda m: m.name == "_has_numeric_value")
     ctx.check_expr("strand-mask", f"{SM}::_ScaledCounts._weighted_counts", e, "self._cube_measures.weighted_cube_counts.counts[self._has_numeric_value]", "respondents whose category has no numeric value are ignored")
     e = expand(ctx.repo, ci, "_numeric_values", stop=lambda m: m.name == "_has_numeric_value")
